@@ -128,6 +128,11 @@ Step1(sl) ==
         Take(Step("Newf", p[2], E, E, E,
                   <<Part("lit", s, 0), Part("lit", <<SEP>>, 0), Part("w", E, p[1]), Part("lit", <<SP>>, 0),
                     Part("err", E, p[2])>>, 0, E))
+  \* ... and with the other error operand in front of the %w operand
+  \/ On("NewfW") /\ \E p \in Pairs(sl) : \E s \in SH2 :
+        Take(Step("Newf", p[2], E, E, E,
+                  <<Part("lit", s, 0), Part("lit", <<SP>>, 0), Part("err", E, p[2]), Part("lit", <<SEP>>, 0),
+                    Part("w", E, p[1])>>, 0, E))
   \* unregistered leaf with an ErrorKeyMarker
   \/ On("ULeaf") /\ \E d \in FirstFree(sl) : \E s \in SH : \E t \in SH2 :
         Take(Step("ULeaf", d, E, s, <<<<"uKeyLeaf">>, t>>, E, 0, E))
